@@ -9,6 +9,8 @@ TRUSTED = []
 
 UNIVERSE = [None, False, True, '', 'a', 'b', 'ab', 'B', 'é', 'z', '￿', 'aa', ' ', '0', 0, 1, 2, -1, -2, -3, -0.5, 0.5, 3, 10, 2.5, -2.5, 0.1, 1e21, 1e-7, 9007199254740991, -9007199254740991, 1.5, 100,
             {}, {'a': 1}, {'a': 2}, {'b': 1}, {'a': 1, 'b': 2}, {'b': 2, 'a': 1}, {'a': 'x'}, {'a': None}, {'a': [1]}, {'aa': 1},
+            # same names, three members, the same first member and the rest in another order (round 13, C07_13)
+            {'a': 1, 'c': 1, 'b': 1}, {'a': 2, 'b': 2, 'c': 2}, {'a': 1, 'b': 1, 'c': 1}, {'a': 0, 'c': 3, 'b': 0},
             [], [1], [2], [1, 2], [1, 1], [None], ['a'], [[]], [[1]], [{}], [1, 'a'], [True], [0.5]]
 
 def rank(v):
